@@ -44,6 +44,39 @@ def ctype(n):
     return t
 
 
+def lin_parts(t):
+    if is_const(t):
+        return t[1], {}
+    if isinstance(t, tuple) and t and t[0] == "lin":
+        return t[1], dict(t[2])
+    return 0, {t: 1}
+
+
+def mk_lin(c, d):
+    d = {k: v for k, v in d.items() if v != 0}
+    if not d:
+        return C(c)
+    if c == 0 and len(d) == 1 and list(d.values())[0] == 1:
+        return list(d.keys())[0]
+    return ("lin", c, tuple(sorted(d.items(), key=repr)))
+
+
+def lin_add(a, b, sign=1):
+    """a + sign*b in linear normal form (+, - and multiplication by constants are associative-commutative ring operations
+    in the machine's modular arithmetic, so regrouping them does not change the value)"""
+    ca, da = lin_parts(a)
+    cb, db = lin_parts(b)
+    d = dict(da)
+    for k, v in db.items():
+        d[k] = d.get(k, 0) + sign * v
+    return mk_lin(ca + sign * cb, d)
+
+
+def lin_scale(a, k):
+    ca, da = lin_parts(a)
+    return mk_lin(ca * k, {t: v * k for t, v in da.items()})
+
+
 def stream(base, *items):
     """term of base << items...; each item is (term, canonical type)"""
     t = base
@@ -76,6 +109,11 @@ def show(t, depth=0):
         return "nullptr"
     if h == "f":
         return "%s.%s" % (show(t[1], d), t[2])
+    if h == "lin":
+        parts = [("%s" % show(k, d)) if v == 1 else "%d*%s" % (v, show(k, d)) for (k, v) in t[2]]
+        if t[1]:
+            parts.append(str(t[1]))
+        return "(" + " + ".join(parts) + ")"
     if h == "elem":
         return "each(%s)" % show(t[1], d)
     if h == "ap":
@@ -439,6 +477,12 @@ class Run:
                     return C(r)
             except Exception:
                 pass
+        if op == "+":
+            return lin_add(a, b)
+        if op == "-":
+            return lin_add(a, b, -1)
+        if op == "*" and (is_const(a) or is_const(b)):
+            return lin_scale(b, a[1]) if is_const(a) else lin_scale(a, b[1])
         if op == "==":
             if a == b:
                 return C(1)
@@ -466,7 +510,7 @@ class Run:
         return [self.ev(a, fr) for a in args]
 
     def ctor(self, n, fr):
-        args = n.get("args", [])
+        args = [a for a in n.get("args", []) if not (a is not None and a.get("k") == "defarg")]
         if len(args) == 1 and (n.get("copy") or self.X.transparent_ctor(n)):
             return self.ev(args[0], fr)
         ts = self.args_terms(args, fr)
@@ -928,6 +972,15 @@ class Explorer:
             o.run = run
             outcomes.append(o)
         return outcomes
+
+    def eval_expr(self, func, node):
+        """term of one expression of func evaluated in isolation (locals and parameters are atoms named after themselves)"""
+        run = Run(self, [])
+        fr = Frame(func, 0, ("a", "this"))
+        try:
+            return run.ev(node, fr)
+        except NeedDecision:
+            raise Unsupported("expression needs a decision")
 
     @staticmethod
     def var(outcome, name):
